@@ -1,6 +1,6 @@
 (* C03 oracle.  Record (one per scenario):
      1 model conds tuples atoms maxdepth mgok backend cyc cyc_ttu subjects faults cached   (backend: 0 memory, 1 sqlite)
-   faults   = ((ot oi r subject strategy op k fired class v2default v2weight2 v2recursive) ...)
+   faults   = ((ot oi r subject strategy op k fired class v2default v2weight2 v2recursive polls) ...)   polls = times the failed iterator was polled again (capped)
               one weighted-graph run (strategy 1 weight2 / 2 recursive forced, no fallback) with the iterators of ONE
               read (op 0 ReadStartingWithUser, 1 ReadUsersetTuples, 2 Read) failing after k tuples
    cached   = ((ot oi subject ((r class v2default v2weight2 v2recursive) ...)) ...)
@@ -333,10 +333,20 @@ let f _id vs =
       if strat && conv then Some (atomval subj v o rel) else None in
     List.iter (fun fv ->
       match as_list fv with
-      | [ot; oi; r; s; st; op; k; fired; cls; a; b; c] ->
+      | [ot; oi; r; s; st; op; k; fired; cls; a; b; c; polls] ->
         let subj = dec_subject s in
         let o = mk_obj (as_int ot) (as_int oi) and rel = n_of_int (as_int r) in
         let cls = as_int cls in
+        if cls = 18 then begin
+          let txt = Printf.sprintf "%s#r%d@%s strategy=%s: %s failing after %d tuple(s): the weighted-graph engine does not answer before the deadline (failed iterator polled again %d%s times)"
+              (obj_s o) (as_int r) (subj_s subj) (if as_int st = 1 then "weight2" else "recursive")
+              (match as_int op with 0 -> "ReadStartingWithUser" | 1 -> "ReadUsersetTuples" | _ -> "Read") (as_int k)
+              (as_int polls) (if as_int polls >= 1000 then "+" else "") in
+          (* the listed finding: iterator.ToChannel keeps polling a failed object-side iterator and its consumer
+             keeps going; anything else that hangs is not listed *)
+          if as_int fired = 1 && as_int polls >= 100 && as_int op <> 0 then knowns := ("v2_read_error_hang " ^ txt) :: !knowns
+          else props := (txt ^ ": hang that is not the listed re-polling loop") :: !props
+        end else
         if as_int fired = 1 && (cls = 0 || cls = 1) then begin
           let healthy = List.filter (fun x -> x = 0 || x = 1) [as_int a; as_int b; as_int c] in
           let right = (match spec_of subj o rel with Some T -> [0] | Some F -> [1] | _ -> [0; 1]) in
